@@ -1543,6 +1543,24 @@ mod v_iface_sixlowpan {
     }
 
     // ---- 5. reassembly
+    /// the two fragments of the ghost datagram in the given order: delivered after the second, equal to what was sent
+    fn frag_rx_pair(first: u8) {
+        let g = GhostD { sll: kani::any(), dll: kani::any(), sport: kani::any(), dport: kani::any(), ck: kani::any(), data: kani::any(), tag: kani::any() };
+        kani::assume(g.dport != 0);
+        let hw: [u8; 8] = g.dll;
+        lowpan_env!(dev, iface, hw);
+        let Interface { inner, fragments, .. } = &mut iface;
+        let r802 = ieee(Some(Ieee802154Address::Extended(g.sll)), Some(Ieee802154Address::Extended(g.dll)));
+        let (d1, _, _) = rx_feed(inner, fragments, &r802, &frag_frame(&g, first, GD as u8, g.tag, 6));
+        assert!(!d1, "prop:c20_incomplete_datagram_not_delivered");
+        let (d2, n2, c2) = rx_feed(inner, fragments, &r802, &frag_frame(&g, 1 - first, GD as u8, g.tag, 6));
+        assert!(d2, "prop:c20_delivered_exactly_when_complete_in_any_order");
+        if d2 {
+            assert_is_ghost(&g, n2, &c2);
+        }
+        kani::cover!(d2 && c2[55] != c2[48], "delivered, data octets vary");
+    }
+
     /// slot state = genuine fragment `first` (0 = FRAG1, 1 = the FRAGN at offset 6) already received; step = a fragment
     /// with the layout of fragment `kind` and symbolic tag / datagram_size / offset; then the missing fragment.
     /// `first` and `kind` are concrete per harness (symbolic kinds: out of memory at 8 GB after 11 min, measured)
@@ -1561,11 +1579,11 @@ mod v_iface_sixlowpan {
         // (datagram sizes above the 256-octet reassembly buffer are refused by `set_total_size`)
         let size8: u8 = kani::any();
         let size = size8 as u16;
-        let offset: u8 = kani::any();
+        // (a symbolic offset makes the copy into the 256-octet slot symbolic: > 8 GB; arbitrary offsets on a fresh slot are
+        // covered by lowpan_frag_rx_free)
+        let offset: u8 = 6;
         let genuine = tag == g.tag && size == GD as u16;
-        if genuine {
-            kani::assume(offset == 6);
-        } else if kind == 0 {
+        if kind == 0 && !genuine {
             // smaller FRAG1 sizes: finding of lowpan_frag_rx_free (subtraction overflow)
             kani::assume(size >= 48);
         }
@@ -1592,25 +1610,37 @@ mod v_iface_sixlowpan {
         kani::cover!(!genuine && size == GD as u16, "same size, foreign tag");
     }
 
-    // @harness props=C20,C03 cfg=KL tier=q to=1800 mem=8 unwind=20 opts=nomem covers=3 funcs=InterfaceInner::process_sixlowpan_fragment;PacketAssemblerSet::get;PacketAssembler::set_total_size;PacketAssembler::add_with;PacketAssembler::add;PacketAssembler::assemble;InterfaceInner::sixlowpan_to_ipv6 bounds=ghost_datagram_of_56_octets_(fe80::IID_addresses,_UDP,_8_data_octets,_all_values_symbolic)_sent_as_FRAG1_+_1_FRAGN_(13-octet_frames);_the_FRAGN_received_first;_step_=_a_FRAG1_(the_late_genuine_one_or_a_foreign_one)_with_symbolic_tag,_datagram_size_<256_(>=48_for_a_foreign_FRAG1)_and_offset;_then_the_missing_fragment;_2_reassembly_slots_of_256_octets
+    // @harness props=C20 cfg=KL tier=q to=1500 mem=8 unwind=20 opts=nomem covers=1 funcs=InterfaceInner::process_sixlowpan_fragment;PacketAssemblerSet::get;PacketAssembler::set_total_size;PacketAssembler::add_with;PacketAssembler::add;PacketAssembler::assemble;InterfaceInner::sixlowpan_to_ipv6;decompress_udp bounds=ghost_datagram_of_56_octets_(fe80::IID_addresses_from_symbolic_extended_link_addresses,_UDP_ports/checksum/8_data_octets_symbolic,_symbolic_tag)_sent_as_FRAG1_(compressed_headers)_+_FRAGN_(offset_6,_8_octets);_arrival_order_FRAG1_then_FRAGN;_fresh_reassembly_buffers_(2_slots_of_256_octets);_UDP_checksum_field_not_compared
+    #[kani::proof]
+    pub(crate) fn lowpan_frag_rx_pair_0() {
+        frag_rx_pair(0);
+    }
+
+    // @harness props=C20 cfg=KL tier=q to=1500 mem=8 unwind=20 opts=nomem covers=1 funcs=InterfaceInner::process_sixlowpan_fragment;PacketAssemblerSet::get;PacketAssembler::set_total_size;PacketAssembler::add_with;PacketAssembler::add;PacketAssembler::assemble;InterfaceInner::sixlowpan_to_ipv6;decompress_udp bounds=ghost_datagram_of_56_octets_(fe80::IID_addresses_from_symbolic_extended_link_addresses,_UDP_ports/checksum/8_data_octets_symbolic,_symbolic_tag)_sent_as_FRAG1_(compressed_headers)_+_FRAGN_(offset_6,_8_octets);_arrival_order_FRAGN_then_FRAG1_(out_of_order);_fresh_reassembly_buffers_(2_slots_of_256_octets);_UDP_checksum_field_not_compared
+    #[kani::proof]
+    pub(crate) fn lowpan_frag_rx_pair_1() {
+        frag_rx_pair(1);
+    }
+
+    // @harness props=C20,C03 cfg=KL tier=q to=1800 mem=8 unwind=20 opts=nomem covers=3 funcs=InterfaceInner::process_sixlowpan_fragment;PacketAssemblerSet::get;PacketAssembler::set_total_size;PacketAssembler::add_with;PacketAssembler::add;PacketAssembler::assemble;InterfaceInner::sixlowpan_to_ipv6 bounds=ghost_datagram_of_56_octets_(fe80::IID_addresses,_UDP,_8_data_octets,_all_values_symbolic)_sent_as_FRAG1_+_1_FRAGN_(13-octet_frames);_the_FRAGN_received_first;_step_=_a_FRAG1_(the_late_genuine_one_or_a_foreign_one)_with_symbolic_tag_and_datagram_size_<256_(>=48_for_a_foreign_FRAG1),_offset_6;_then_the_missing_fragment;_2_reassembly_slots_of_256_octets
     #[kani::proof]
     pub(crate) fn lowpan_frag_rx_step_1_0() {
         frag_rx_case(1, 0);
     }
 
-    // @harness props=C20,C03 cfg=KL tier=q to=1800 mem=8 unwind=20 opts=nomem covers=3 funcs=InterfaceInner::process_sixlowpan_fragment;PacketAssemblerSet::get;PacketAssembler::set_total_size;PacketAssembler::add_with;PacketAssembler::add;PacketAssembler::assemble;InterfaceInner::sixlowpan_to_ipv6 bounds=ghost_datagram_of_56_octets_(fe80::IID_addresses,_UDP,_8_data_octets,_all_values_symbolic)_sent_as_FRAG1_+_1_FRAGN_(13-octet_frames);_FRAG1_received;_step_=_a_FRAGN_(the_genuine_one_or_a_foreign_one)_with_symbolic_tag,_datagram_size_<256_(>=48_for_a_foreign_FRAG1)_and_offset;_then_the_missing_fragment;_2_reassembly_slots_of_256_octets
+    // @harness props=C20,C03 cfg=KL tier=q to=1800 mem=8 unwind=20 opts=nomem covers=3 funcs=InterfaceInner::process_sixlowpan_fragment;PacketAssemblerSet::get;PacketAssembler::set_total_size;PacketAssembler::add_with;PacketAssembler::add;PacketAssembler::assemble;InterfaceInner::sixlowpan_to_ipv6 bounds=ghost_datagram_of_56_octets_(fe80::IID_addresses,_UDP,_8_data_octets,_all_values_symbolic)_sent_as_FRAG1_+_1_FRAGN_(13-octet_frames);_FRAG1_received;_step_=_a_FRAGN_(the_genuine_one_or_a_foreign_one)_with_symbolic_tag_and_datagram_size_<256_(>=48_for_a_foreign_FRAG1),_offset_6;_then_the_missing_fragment;_2_reassembly_slots_of_256_octets
     #[kani::proof]
     pub(crate) fn lowpan_frag_rx_step_0_1() {
         frag_rx_case(0, 1);
     }
 
-    // @harness props=C20,C03 cfg=KL tier=t to=1800 mem=8 unwind=20 opts=nomem covers=3 funcs=InterfaceInner::process_sixlowpan_fragment;PacketAssemblerSet::get;PacketAssembler::set_total_size;PacketAssembler::add_with;PacketAssembler::add;PacketAssembler::assemble;InterfaceInner::sixlowpan_to_ipv6 bounds=ghost_datagram_of_56_octets_(fe80::IID_addresses,_UDP,_8_data_octets,_all_values_symbolic)_sent_as_FRAG1_+_1_FRAGN_(13-octet_frames);_FRAG1_received;_step_=_a_FRAG1_(duplicate_or_foreign)_with_symbolic_tag,_datagram_size_<256_(>=48_for_a_foreign_FRAG1)_and_offset;_then_the_missing_fragment;_2_reassembly_slots_of_256_octets
+    // @harness props=C20,C03 cfg=KL tier=t to=1800 mem=8 unwind=20 opts=nomem covers=3 funcs=InterfaceInner::process_sixlowpan_fragment;PacketAssemblerSet::get;PacketAssembler::set_total_size;PacketAssembler::add_with;PacketAssembler::add;PacketAssembler::assemble;InterfaceInner::sixlowpan_to_ipv6 bounds=ghost_datagram_of_56_octets_(fe80::IID_addresses,_UDP,_8_data_octets,_all_values_symbolic)_sent_as_FRAG1_+_1_FRAGN_(13-octet_frames);_FRAG1_received;_step_=_a_FRAG1_(duplicate_or_foreign)_with_symbolic_tag_and_datagram_size_<256_(>=48_for_a_foreign_FRAG1),_offset_6;_then_the_missing_fragment;_2_reassembly_slots_of_256_octets
     #[kani::proof]
     pub(crate) fn lowpan_frag_rx_step_0_0() {
         frag_rx_case(0, 0);
     }
 
-    // @harness props=C20,C03 cfg=KL tier=t to=1800 mem=8 unwind=20 opts=nomem covers=3 funcs=InterfaceInner::process_sixlowpan_fragment;PacketAssemblerSet::get;PacketAssembler::set_total_size;PacketAssembler::add_with;PacketAssembler::add;PacketAssembler::assemble;InterfaceInner::sixlowpan_to_ipv6 bounds=ghost_datagram_of_56_octets_(fe80::IID_addresses,_UDP,_8_data_octets,_all_values_symbolic)_sent_as_FRAG1_+_1_FRAGN_(13-octet_frames);_the_FRAGN_received;_step_=_a_FRAGN_(duplicate_or_foreign)_with_symbolic_tag,_datagram_size_<256_(>=48_for_a_foreign_FRAG1)_and_offset;_then_the_missing_fragment;_2_reassembly_slots_of_256_octets
+    // @harness props=C20,C03 cfg=KL tier=t to=1800 mem=8 unwind=20 opts=nomem covers=3 funcs=InterfaceInner::process_sixlowpan_fragment;PacketAssemblerSet::get;PacketAssembler::set_total_size;PacketAssembler::add_with;PacketAssembler::add;PacketAssembler::assemble;InterfaceInner::sixlowpan_to_ipv6 bounds=ghost_datagram_of_56_octets_(fe80::IID_addresses,_UDP,_8_data_octets,_all_values_symbolic)_sent_as_FRAG1_+_1_FRAGN_(13-octet_frames);_the_FRAGN_received;_step_=_a_FRAGN_(duplicate_or_foreign)_with_symbolic_tag_and_datagram_size_<256_(>=48_for_a_foreign_FRAG1),_offset_6;_then_the_missing_fragment;_2_reassembly_slots_of_256_octets
     #[kani::proof]
     pub(crate) fn lowpan_frag_rx_step_1_1() {
         frag_rx_case(1, 1);
